@@ -8,14 +8,16 @@ C13 — type inference from sample values.
   (xsdata/models/enums.py `int_datatype`, `float_datatype`).
 
 `int`, `bool`, `XmlTime`, `XmlDate`, `XmlDateTime`, `XmlDuration`, `XmlPeriod` are
-computed by the model (`Py.pyInt`, `Lex/Dates`, `Lex/Period`).  `float` and `Decimal`
-(`float(s)` + `repr`, `Decimal(s)` + `format(…, "f")`) are *abstract*: two oracle
-functions of `SEnv`; the driver receives their answers with the request.
+computed by the model (`Py.pyInt`, `Lex/Dates`, `Lex/Period`); `float` and `Decimal` by the
+converter model of C05 (`Conv.test`: `float()` syntax, `Decimal(s)`, `format(d, "f")`).  The only
+abstract function left is `repr` of a float (`CEnv.floatRepr`), whose answers the driver
+receives with the request.
 -/
 import XsdataModel.Py.Basic
 import XsdataModel.Lex.Dates
 import XsdataModel.Lex.Period
 import XsdataModel.Tables
+import XsdataModel.Conv.Factory
 
 namespace Xs.Samples
 open Py Xs.Dates
@@ -37,14 +39,13 @@ def PyT.ofName (n : Str) : Option PyT :=
   else if n = "XmlPeriod".toList then some .period
   else none
 
-/-- the outside world of the inference: Python's Unicode tables and the two
-abstract strict tests -/
+/-- the outside world of the inference: the converter environment of C05 (Python's Unicode
+tables and `repr(float(s))`, the one function of the float converter that is not modelled) -/
 structure SEnv where
-  py : Env
-  /-- `converter.test(s, [float], strict=True)` -/
-  floatStrict : Str → Bool
-  /-- `converter.test(s, [Decimal], strict=True)` -/
-  decimalStrict : Str → Bool
+  conv : Xs.Conv.CEnv
+
+/-- the Unicode tables -/
+abbrev SEnv.py (e : SEnv) : Env := e.conv.toEnv
 
 /-- `BoolConverter.deserialize` for a `str` -/
 def deBool (e : Env) (s : Str) : Option Bool :=
@@ -65,8 +66,8 @@ def testStrict (e : SEnv) (t : PyT) (s : Str) : Bool :=
   | .bool => match deBool e.py s with
       | some b => e.py.strip s = serBool b
       | none => false
-  | .float => e.floatStrict s
-  | .decimal => e.decimalStrict s
+  | .float => Xs.Conv.test e.conv s [.float] true {}
+  | .decimal => Xs.Conv.test e.conv s [.decimal] true {}
   | .time => (XmlTime.fromString e.py s).isSome
   | .date => (XmlDate.fromString e.py s).isSome
   | .dateTime => (XmlDateTime.fromString e.py s).isSome
